@@ -151,8 +151,6 @@ def admitted(case):
     Since the NC16b repair there is no condition on dest_chunksize / chunksize_mult any more."""
     if case["op"] != "concat_session":
         return True
-    if not case["strs"] and len(case["spans"]) >= 2:
-        return False
     return case["sc"] >= 1
 
 
@@ -293,7 +291,7 @@ def rand_str(rng):
 def to_model(case):
     bs = enc(case["strs"])
     m = {k: v for k, v in case.items() if k not in ("strs", "src", "dst", "unsafe") and not k.startswith("_")}
-    m["idx"] = offsets(bs) if bs else []      # an indexed string field without rows stores indices = [] (D2, C01)
+    m["idx"] = offsets(bs) if bs else [0]     # since fix D2 (C01) an indexed string field without rows stores indices = [0]
     m["vals"] = list(b"".join(bs))
     m["sep"], m["delim"] = SEP, DELIM
     return m
